@@ -22,7 +22,7 @@ def spec(tier, seed):
                      "target": "bin", "run": lambda fns, variants, work: _mir.vc_first_touch_is_unlink(fns, variants, work)}],
         "level": "other",
         "engine": "mirvc: symbolic execution of the MIR of apply/common.rs::save_modified_file; z3, cross-checked with cvc5",
-        "functions": ["common::save_modified_file (MIR)"],
+        "functions": ["common::save_modified_file (MIR)", "ModifiedFile::move_out / move_in / restore_renamed_over (Kani)"],
         "symbolic": "file.existed, file.deleted, the Result of remove_file and the ErrorKind comparison",
         "bounds": {"loop_unrolling": mirvc.UNROLL, "note": "the function is loop-free"},
         "assumptions": ["ghost flag set at the remove_file call; ErrorKind equality modelled as discriminant equality"],
